@@ -2,8 +2,8 @@ From Coq Require Import List Bool Ascii Arith NArith.
 From TxVerif Require Import Lib.Bytes Lib.Verdict Spec.C16 Model.Consensus.
 Import ListNotations.
 
-(* k_f1 / k_f2: the harness's own evaluation of the two finding predicates (mirror check) *)
-Record case := { k_docs : list (doc * list bytes); k_f1 : bool; k_f2 : bool; k_obs : list view;
+(* k_f2: the harness's own evaluation of the finding predicate (mirror check) *)
+Record case := { k_docs : list (doc * list bytes); k_f2 : bool; k_obs : list view;
                  k_codec : list cobs }.
 
 Definition robs_eqb (a b : robs) : bool :=
@@ -29,17 +29,17 @@ Definition view_eqb (a b : view) : bool :=
   && list_eqb (pair_eqb lres_eqb) (v_lookups a) (v_lookups b)
   && N.eqb (v_exn a) (v_exn b).
 
-(* outside the envelope (VSkip): an ill-formed document, or the model leaves its envelope.
-   The Python mirrors of the finding predicates must agree with Spec.C16 (else VDiff). *)
+(* outside the envelope (VSkip, whatever the oracle says: such a case is not an input of C16):
+   an ill-formed document or an extra key naming an unknown fingerprint; or the model leaves its envelope.
+   The Python mirror of the finding predicate must agree with Spec.C16 (else VDiff). *)
 Definition cobs_eqb (a b : cobs) : bool :=
   beqb (co_id a) (co_id b) && option_eqb beqb (co_hex a) (co_hex b) && option_eqb beqb (co_b64 a) (co_b64 b)
   && option_eqb beqb (co_b64n a) (co_b64n b).
 
 Definition check (k : case) : verdict :=
   let o := oracle (map fst (k_docs k)) (k_obs k) && forallb codec_ok (k_codec k) in
-  let preds := Bool.eqb (existsb (fun dx => doc_p_without_w (fst dx)) (k_docs k)) (k_f1 k)
-               && Bool.eqb (existsb (fun dx => doc_dup_authority_nick (fst dx)) (k_docs k)) (k_f2 k) in
-  if negb (forallb input_ok (k_docs k)) then mk_verdict None o else
+  let preds := Bool.eqb (existsb (fun dx => doc_dup_authority_nick (fst dx)) (k_docs k)) (k_f2 k) in
+  if negb (forallb input_ok (k_docs k)) then VSkip else
   match run (k_docs k) with
   | None => mk_verdict None o
   | Some vs => mk_verdict (Some (list_eqb view_eqb vs (k_obs k) && preds
